@@ -9,9 +9,9 @@
    - limb-index assertions of the layers below (`assert!(j < self.size())`, slice ranges) are `passert`: they panic in
      both profiles;
    - the monad threads the destination's metadata, because some calls assign `dst.meta` before a later `?` exit
-     (encryption, plaintext alignment after the shift, the single-input forms of add_many / mul_many): a failed call
-     can leave the destination with new metadata, which is observable.
-   State of /repo: after the repairs fd924ce, 3326e5c, e31e2c8, 84cafa8, b042dad, 628058f.  *)
+     (encryption, plaintext alignment after the shift): a failed call can leave the destination with new metadata,
+     which is observable.
+   State of /repo: after the repairs fd924ce, 3326e5c, e31e2c8, 84cafa8, b042dad, 628058f, 18a4236, 1a5cef0, 45bddf7.  *)
 From PV Require Import Base.MachineInt.
 Open Scope Z_scope.
 
@@ -23,9 +23,9 @@ Definition maxk (B : Z) (c : ct) : Z := csize c * B.    (* LWEInfos::max_k = siz
 Definition cdiv (a b : Z) : Z := (a + b - 1) / b.       (* usize::div_ceil *)
 Definition min_k (B : Z) (m : meta) : Z := cdiv (eff m) B * B.   (* CKKSInfos::min_k = next_multiple_of(base2k) *)
 
-Inductive ekind := EShrink | ECapacity | EBase2k | EMissingKey | EAlign | EMulUnder | EOther.
+Inductive ekind := EShrink | ECapacity | EBase2k | EMissingKey | EAlign | EMulUnder | EOther | ENotCompact.
 Definition ecode (e : ekind) : Z :=
-  match e with EShrink => 1 | ECapacity => 2 | EBase2k => 3 | EMissingKey => 4 | EAlign => 5 | EMulUnder => 6 | EOther => 7 end.
+  match e with EShrink => 1 | ECapacity => 2 | EBase2k => 3 | EMissingKey => 4 | EAlign => 5 | EMulUnder => 6 | EOther => 7 | ENotCompact => 8 end.
 
 (* result of one API call as seen on the destination *)
 Inductive outcome :=
@@ -110,14 +110,6 @@ Definition unary_into (B : Z) (d a : ct) : M unit :=
   l <- csub ECapacity (lb (cm a)) off ;;
   shift off ;;;
   set_meta (cm a) ;;;
-  set_lb l.
-(* the same prefix as it still stands in delegates/composite.rs (single-input add_many / mul_many):
-   dst.meta = a.meta() happens before the `?` *)
-Definition unary_into_late (B : Z) (d a : ct) : M unit :=
-  let off := offset_unary B d a in
-  shift off ;;;
-  set_meta (cm a) ;;;
-  l <- csub ECapacity (lb (cm a)) off ;;
   set_lb l.
 
 (* ---- add.rs / sub.rs ---- *)
@@ -205,12 +197,13 @@ Definition apply_params (p : M (Z * Z * Z)) : M unit :=
   let '(l, rld, cnv) := t in
   shift cnv ;;; set_lb l ;;; set_ld rld.
 
-(* poulpy-core's glwe_tensor_apply / glwe_tensor_square_apply / glwe_mul_plain assert, after the parameters were
-   computed, that every ciphertext operand is stored compactly:  assert_eq!(effective_k.div_ceil(base2k), size)  *)
+(* poulpy-core's glwe_tensor_apply / glwe_tensor_square_apply / glwe_mul_plain need every ciphertext operand stored
+   compactly, effective_k.div_ceil(base2k) = size; since 45bddf7 the CKKS layer checks it after the parameters were
+   computed (ensure_compact -> OperandNotCompact) *)
 Definition compact (B : Z) (m : meta) (size : Z) : bool := cdiv (eff m) B =? size.
 Definition apply_params_asserting (p : M (Z * Z * Z)) (c : bool) : M unit :=
   t <- p ;;
-  passert c ;;;
+  (if c then ret tt else fail ENotCompact) ;;;
   let '(l, rld, cnv) := t in
   shift cnv ;;; set_lb l ;;; set_ld rld.
 
@@ -307,7 +300,7 @@ Definition accumulate (chk : bool) (A : Type) (term : A -> M unit) (rest : list 
 Definition add_many (chk : bool) (B : Z) (d : ct) (ins : list ct) : M unit :=
   match ins with
   | [] => fail EOther
-  | [x] => unary_into_late B d x
+  | [x] => unary_into B d x
   | x :: y :: tl => acc_fits B (zlen ins) ;;; lin_into chk B d x y ;;; fold_m (fun c => lin_assign chk c) tl
   end.
 
@@ -327,7 +320,7 @@ Fixpoint mul_many_rec (fuel : nat) (B : Z) (d : ct) (ins : list ct) : M unit :=
       if negb (forallb (fun c => ld_of c =? l0) ins) then fail EOther else
       match ins with
       | [] => fail EOther
-      | [x] => unary_into_late B d x
+      | [x] => unary_into B d x
       | [x; y] => mul_into B d x y
       | _ =>
           let mid := Nat.div2 (length ins) in
@@ -365,10 +358,10 @@ Definition dot_ct (chk : bool) (B : Z) (d : ct) (xs ys : list ct) : M unit :=
         let rld := Z.min a_ld b_ld in
         let roff := ssub (lhr0 + rld) (maxk B d) in
         rl <- csub ECapacity lhr0 roff ;;
-        let cnv := Z.max a_t b_t + roff in
-        (* glwe_tensor_apply[_add_assign] assert the limb count of every operand they are handed *)
-        passert ((negb a_aligned || forallb (fun c => cdiv a_t B =? csize c) xs) &&
-                 (negb b_aligned || forallb (fun c => cdiv b_t B =? csize c) ys)) ;;;
+        let cnv := Z.max amin bmin + Z.max a_ld b_ld + roff in
+        (* inputs handed to the tensor product unchanged have to be compact (ensure_compact) *)
+        (if (negb a_aligned || forallb (fun c => cdiv a_t B =? csize c) xs) &&
+            (negb b_aligned || forallb (fun c => cdiv b_t B =? csize c) ys) then ret tt else fail ENotCompact) ;;;
         shift cnv ;;; set_lb rl ;;; set_ld rld
   end.
 
